@@ -41,6 +41,11 @@ def bad_field_classes():
         ("contra-map-list", "map[int32]int32", 'frugal:"2,default,list<i32>"'),
         ("contra-binary-list", "[]byte", 'frugal:"2,default,list<i8>"'),
         ("contra-bool-byte", "bool", 'frugal:"2,default,byte"'),
+        ("map-kw-dict", "map[string]int32", 'frugal:"2,default,dict<string:i32>"'),
+        ("map-kw-list", "map[string]int64", 'frugal:"2,default,list<string:i64>"'),
+        ("map-kw-set", "map[int32]string", 'frugal:"2,default,set<i32:string>"'),
+        ("map-kw-struct", "map[int32]int32", 'frugal:"2,default,struct<i32:i32>"'),
+        ("map-kw-hashmap", "map[string]string", 'frugal:"2,optional,hashmap<string:string>"'),
         ("syn-unclosed", "[]int32", 'frugal:"2,default,list<i32"'),
         ("syn-double-open", "[]int32", 'frugal:"2,default,list<<i32>"'),
         ("syn-map-comma", "map[string]int32", 'frugal:"2,default,map<string;i32>"'),
@@ -101,18 +106,19 @@ def invalid_universe(rng, copies=1):
     defs = U.leaf_structs()
     plan = []
     good = field(1, "default", T("i32"))
+    shared = field(0, "optional", ST("Leaf", True))     # a nested type the valid neighbours use too, at a lower id than the bad field
     for ci, (cls, gotype, rawtag) in enumerate(bad_field_classes()):
         for copy in range(copies):
             base = "Bad%d_%d" % (ci, copy)
             badf = {"id": 2, "key": "2", "req": "default", "t": {"k": "i32", "ptr": False, "gotype": gotype}, "nocopy": False,
                     "name": list(b"F2"), "rawtag": rawtag, "opaque": True}
-            defs[base] = struct([dict(good), badf])
+            defs[base] = struct([dict(shared), dict(good), badf])
             defs[base]["invalid"] = True
             plan.append((cls, "top", base, []))
             pos = rng.choice(["nested", "listelem", "mapval", "cycle", "nested2"])
             holder = "%s_%s" % (base, pos)
             inner = "%sI_%s" % (base, pos)   # a private bad type first met nested
-            defs[inner] = struct([dict(good), dict(badf)])
+            defs[inner] = struct([dict(shared), dict(good), dict(badf)])
             defs[inner]["invalid"] = True
             ok1 = "%s_ok" % base            # valid neighbours sharing nothing but the leaf
             defs[ok1] = struct([field(1, "default", T("i32")), field(2, "optional", ST("Leaf", True)), field(3, "default", L(T("string")))])
@@ -136,6 +142,8 @@ def invalid_universe(rng, copies=1):
                 for x in (a, b, y):
                     defs[x]["invalid"] = True
                 plan.append((cls, "cycle-relative", y, []))
+            # the holder also nests the shared valid type, at a lower id than the path to the bad one
+            defs[holder]["fields"].insert(0, dict(shared))
             defs[holder]["invalid"] = True
             plan.append((cls, pos, holder, [ok1]))
     U.with_defaults({k: v for k, v in defs.items() if not v.get("invalid")})
